@@ -212,6 +212,60 @@ Proof.
   - rewrite andthen_skip. apply Tail; cbn; auto.
 Qed.
 
+(* ------------------------------------------------------------------ _call_bin_statistic, get_min, get_max, get_abs_max *)
+Lemma call_bin_statistic_code o m data fill skipna :
+  exists st, imp_call_bin_statistic o m data fill skipna
+             = Ret [] st (bk_cells (o_size o) (bk_get_stat m (o_size o) (concat (o_chunks o)) (concat data)))
+             /\ imp_call_bin_statistic_self st = bk_rechunk (ib_lens data) o.
+Proof.
+  unfold imp_call_bin_statistic. repeat istep. rewrite andthen_ite. cbn.
+  assert (Eo : (if negb (ib_same_chunks data (o_chunks o))
+                then mk_obj (o_size o) (ib_rechunk (o_chunks o) data) (o_counts o) else o) = bk_rechunk (ib_lens data) o).
+  { destruct (ib_same_chunks _ _) eqn:Es; cbn [negb].
+    - apply list_eqb_nat_eq in Es. symmetry. apply (rechunk_same o data Es).
+    - reflexivity. }
+  assert (Hv1 : ib_statistic m (o_size o) (ib_rechunk (o_chunks o) data) data
+                = bk_cells (o_size o) (bk_get_stat m (o_size o) (concat (o_chunks o)) (concat data)))
+    by (unfold ib_statistic, ib_rechunk; rewrite concat_split; reflexivity).
+  assert (Hv2 : ib_statistic m (o_size o) (o_chunks o) data
+                = bk_cells (o_size o) (bk_get_stat m (o_size o) (concat (o_chunks o)) (concat data))) by reflexivity.
+  destruct (negb (ib_same_chunks data (o_chunks o))); repeat istep; rewrite ret_eval; cbn; rewrite ?Hv1, ?Hv2; eexists;
+    (split; [reflexivity | cbn; exact Eo]).
+Qed.
+
+Lemma get_min_code o data fill skipna :
+  exists st, imp_get_min o data fill skipna
+             = Ret [] st (bk_cells (o_size o) (bk_get_min (o_size o) (concat (o_chunks o)) (concat data)))
+             /\ imp_get_min_self st = bk_rechunk (ib_lens data) o.
+Proof.
+  unfold imp_get_min. rewrite andthen_call. cbn.
+  destruct (call_bin_statistic_code o false data fill skipna) as (st1 & E1 & S1). rewrite E1. cbn.
+  rewrite ret_eval. cbn. eexists. split; [reflexivity | exact S1].
+Qed.
+Lemma get_max_code o data fill skipna :
+  exists st, imp_get_max o data fill skipna
+             = Ret [] st (bk_cells (o_size o) (bk_get_max (o_size o) (concat (o_chunks o)) (concat data)))
+             /\ imp_get_max_self st = bk_rechunk (ib_lens data) o.
+Proof.
+  unfold imp_get_max. rewrite andthen_call. cbn.
+  destruct (call_bin_statistic_code o true data fill skipna) as (st1 & E1 & S1). rewrite E1. cbn.
+  rewrite ret_eval. cbn. eexists. split; [reflexivity | exact S1].
+Qed.
+Lemma get_abs_max_code o data fill skipna :
+  exists st, imp_get_abs_max o data fill skipna
+             = Ret [] st (bk_cells (o_size o) (bk_get_abs_max (o_size o) (concat (o_chunks o)) (concat data)))
+             /\ imp_get_abs_max_self st = bk_rechunk (ib_lens data) o.
+Proof.
+  unfold imp_get_abs_max. rewrite andthen_call. cbn.
+  destruct (get_max_code o data fill skipna) as (st1 & E1 & S1). rewrite E1. cbn.
+  rewrite andthen_call. cbn. rewrite S1.
+  destruct (get_min_code (bk_rechunk (ib_lens data) o) data fill skipna) as (st2 & E2 & S2). rewrite E2. cbn.
+  rewrite ret_eval. cbn. eexists. split.
+  - f_equal. rewrite rechunk_chunks. change (o_size (bk_rechunk (ib_lens data) o)) with (o_size o).
+    unfold ib_abs_max, bk_get_abs_max. rewrite combine_cells, map_cells. reflexivity.
+  - rewrite S2. apply rechunk_rechunk.
+Qed.
+
 (* ------------------------------------------------------------------ get_average *)
 Lemma hist_some size idxs zs k :
   bk_hist oadd (Some 0) size (combine idxs (map Some zs)) k = Some (bk_hist Z.add 0 size (combine idxs zs) k).
